@@ -715,20 +715,16 @@ impl ClusterHandler for NocHandler {
                 // Drop any CASE session resumption records that were
                 // scoped to this fabric so a subsequent CASE handshake
                 // to any peer that used to belong to it starts fresh.
+                //
+                // The purged cache is stored right away (not by the lazy
+                // background task) and BEFORE the fabric itself is removed
+                // from the store: a stored record of this fabric must never
+                // be found next to a later fabric with the same local index.
                 #[cfg(feature = "case-resumption")]
-                state.resumption.remove_for_fabric(fab_idx);
+                state.purge_resumption_for_fabric(fab_idx, ctx.kv())?;
 
                 // Notify that a session was removed
                 ctx.exchange().matter().transport().notify_session_removed();
-
-                // The resumption cache was just mutated — wake the
-                // background persist task so the on-disk copy sheds
-                // the removed fabric's records too.
-                #[cfg(feature = "case-resumption")]
-                ctx.exchange()
-                    .matter()
-                    .transport()
-                    .notify_resumption_dirty();
 
                 // Notify that our mDNS records might have changed
                 notify_mdns();
